@@ -163,7 +163,10 @@ func genC10(c *Ctx, r *rng.R, i int) {
 	retT := paramTypes[r.Intn(len(paramTypes))]
 	retTy := retT.Build()
 	tcbKind := []string{"const", "const", "const", "firstarg", "err", "panic"}[r.Intn(6)]
-	icbKind := []string{"const", "const", "const", "firstarg", "unknown", "null", "err", "panic", "nonconforming"}[r.Intn(9)]
+	icbKind := []string{"const", "const", "const", "firstarg", "unknown", "null", "err", "panic", "nonconforming", "typedunknown"}[r.Intn(10)]
+	if retTy == cty.DynamicPseudoType && r.Chance(40) {
+		icbKind = "typedunknown" // a typed (possibly refined) unknown under a dynamic return type
+	}
 	var constRet cty.Value
 	switch icbKind {
 	case "const":
@@ -174,6 +177,9 @@ func genC10(c *Ctx, r *rng.R, i int) {
 		constRet = gv.Gen(r, retT, cfg, 2)
 	case "nonconforming":
 		constRet = cty.TupleVal([]cty.Value{cty.StringVal("not"), cty.True, cty.NumberIntVal(1)})
+	case "typedunknown":
+		constRet = []cty.Value{cty.UnknownVal(cty.String), cty.UnknownVal(cty.List(cty.String)), cty.UnknownVal(cty.Number).Refine().NumberRangeLowerBound(cty.Zero, true).NewValue(),
+			cty.UnknownVal(cty.Map(cty.Number))}[r.Intn(4)]
 	}
 	var refine []rcall
 	hasRefine := r.Chance(35)
@@ -276,7 +282,7 @@ func genC10(c *Ctx, r *rng.R, i int) {
 	}
 	tcbC := map[string]string{"const": "(TcbConst " + cq.Ty(retTy) + ")", "err": "TcbErr", "panic": "TcbPanic", "firstarg": "TcbFirstArgTy"}[tcbKind]
 	icbC := map[string]string{"err": "IcbErr", "panic": "IcbPanic", "unknown": "IcbUnknownOfRet", "null": "IcbNullOfRet", "firstarg": "IcbFirstArg"}[icbKind]
-	if icbKind == "const" || icbKind == "nonconforming" {
+	if icbKind == "const" || icbKind == "nonconforming" || icbKind == "typedunknown" {
 		icbC = "(IcbConst " + cq.Val(constRet) + ")"
 	}
 	rfC := "None"
